@@ -39,7 +39,7 @@ static void truncation(const uint8_t* img, size_t len, const char* fdesc) {
             if (mode == 0 && cut == 0) continue;      /* open_buffer documents size 0 as invalid; nothing to observe */
             static const char* MN[] = { "buffer", "fread", "mmap" };
             if (rd) {
-                if (!complete) { char key[96]; const char* zone = (cut >= 12 && !memcmp(img + cut - 4, "PAR1", 4)) ? "prefix-ends-with-embedded-parquet-image" : cut >= len - 8 ? "inside-trailer" : cut < 4 ? "inside-leading-magic" : "inside-data-or-footer"; snprintf(key, sizeof key, "truncated.accepted.%s.%s", MN[mode], zone); mc_fail(key, "%s: prefix of %zu of %zu bytes opened as a table of %lld rows", fdesc, cut, len, (long long)carquet_reader_num_rows(rd)); }
+                if (!complete) { char key[96]; const char* zone = (cut >= 12 && !memcmp(img + cut - 4, "PAR1", 4)) ? (strstr(fdesc, "length-magic-records") ? "prefix-ends-with-length-and-magic-record" : "prefix-ends-with-embedded-parquet-image") : cut >= len - 8 ? "inside-trailer" : cut < 4 ? "inside-leading-magic" : "inside-data-or-footer"; snprintf(key, sizeof key, "truncated.accepted.%s.%s", MN[mode], zone); mc_fail(key, "%s: prefix of %zu of %zu bytes opened as a table of %lld rows", fdesc, cut, len, (long long)carquet_reader_num_rows(rd)); }
                 carquet_reader_close(rd);
             } else {
                 if (err.code == CARQUET_OK) { char key[96]; snprintf(key, sizeof key, "truncated.null-without-error-code.%s", MN[mode]); mc_fail(key, "%s cut=%zu: open returned NULL but the error struct says OK", fdesc, cut); }
@@ -106,7 +106,7 @@ static void abort_points(const hist_t* h, const char* fdesc) {
 }
 
 static void enumerate(void) {
-    mc_rule("C18: (a) every proper prefix (cut 0..len-1) of 210 carquet-written seed files (14 column kinds x 5 codecs x 3 shapes incl. 3 row groups and two columns) and of an adversarial file whose string column embeds a complete Parquet image, opened by "
+    mc_rule("C18: (a) every proper prefix (cut 0..len-1) of 210 carquet-written seed files (14 column kinds x 5 codecs x 3 shapes incl. 3 row groups and two columns) and of two adversarial files (a string value that is a complete Parquet image; a string value made of <u32 length>PAR1 records with lengths 0xfffffff0..0xffffffff, 0, 1, 2^31-1, 2^31 and the prefix size -14..+4), opened by "
             "path, by path with mmap and from a buffer: open must fail with a non-OK code unless the reference reader accepts the prefix as a complete file; (b) for 45 write histories the output sink (fopencookie) fails at every byte offset and at every "
             "sink invocation under default, unbuffered and 16-byte stdio buffering, the path-based writer is run on /dev/full and under every RLIMIT_FSIZE: some writer call, at the latest close, must return non-OK, and OK from every call implies "
             "the sink holds exactly the fault-free image; (c) carquet_writer_abort replaces every operation of every history in turn: the second of two identical runs may not leave more live allocations than the first, and path-based writers leave no "
@@ -130,6 +130,25 @@ static void enumerate(void) {
             bool found = false; for (size_t q = 12; q < out.n - 8; q++) if (!memcmp(out.p + q - 4, "PAR1", 4)) found = true; if (!found) mc_harness_error("adversarial seed has no embedded image boundary");
             truncation(out.p, out.n, "c18a:adversarial-embedded-image"); mc_count("cuts", out.n); ref_buf_free(&out); free(in_img); ref_arena_free(&RA);
         }
+    }
+    if (mc_next()) {     /* adversarial: a string value made of 8-byte records <u32 length><"PAR1">: some prefix ends in every interesting footer length followed by the magic */
+        mc_desc("c18a:adversarial-length-magic-records"); mc_case_key(0x18ab); mc_nontrivial(); mc_feature("truncation");
+        static uint8_t blob[8 * 64]; int nrec = 0; size_t blob_off = 0; ref_buf out; ref_buf_init(&out);
+        for (int pass = 0; pass < 2; pass++) {
+            nrec = 0; uint32_t L[64];
+            for (uint32_t v = 0xfffffff0u; v != 0; v++) L[nrec++] = v;                                                 /* 16 values up to 0xffffffff: 32-bit wrap of "length + 8" */
+            L[nrec++] = 0; L[nrec++] = 1; L[nrec++] = 0x7fffffffu; L[nrec++] = 0x80000000u;
+            for (int d = -14; d <= 4; d++) { size_t P = blob_off + (size_t)(nrec + 1) * 8; L[nrec] = (uint32_t)((int64_t)P + d); nrec++; }   /* around the size of the prefix that ends with this record */
+            for (int i = 0; i < nrec; i++) { blob[i * 8] = (uint8_t)L[i]; blob[i * 8 + 1] = (uint8_t)(L[i] >> 8); blob[i * 8 + 2] = (uint8_t)(L[i] >> 16); blob[i * 8 + 3] = (uint8_t)(L[i] >> 24); memcpy(blob + i * 8 + 4, "PAR1", 4); }
+            carquet_error_t err = CARQUET_ERROR_INIT; carquet_schema_t* sch = carquet_schema_create(&err); (void)carquet_schema_add_column(sch, "blob", CARQUET_PHYSICAL_BYTE_ARRAY, NULL, CARQUET_REPETITION_REQUIRED, 0);
+            char* mem = NULL; size_t mlen = 0; FILE* mf = open_memstream(&mem, &mlen); carquet_writer_t* w = carquet_writer_create_file(mf, sch, NULL, &err); carquet_byte_array_t v = { blob, (int32_t)(nrec * 8) };
+            if (!w || carquet_writer_write_batch(w, 0, &v, 1, NULL, NULL) != CARQUET_OK || carquet_writer_close(w) != CARQUET_OK) mc_harness_error("cannot write the length-magic seed");
+            fclose(mf); carquet_schema_free(sch); ref_buf_clear(&out); ref_buf_put(&out, mem, mlen); free(mem);
+            size_t q = 0; for (; q + 8 <= out.n; q++) if (!memcmp(out.p + q, blob, 8)) break; if (q + 8 > out.n) mc_harness_error("length-magic seed: value not found in the file (compressed?)");
+            if (pass == 1 && q != blob_off) mc_harness_error("length-magic seed: value moved between the two passes");
+            blob_off = q;
+        }
+        truncation(out.p, out.n, "c18a:adversarial-length-magic-records"); mc_count("cuts", out.n); ref_buf_free(&out); ref_arena_free(&RA);
     }
     mc_stage("b.failing-sinks.every-offset.every-invocation");
     for (int k = 0; k < 210; k += (mc_thorough() ? 2 : 5)) {
